@@ -4,5 +4,6 @@ CONSTANTS
   NegMag = {1}
   Gaps = {0, 1}
   MaxLen = 4
+  MaxResets = 0
 INVARIANT Emit
 CHECK_DEADLOCK FALSE
